@@ -1,9 +1,9 @@
 --------------------------- MODULE CanonJSON_gen ---------------------------
 (***************************************************************************)
 (* Generation wrapper for CanonJSON.tla (C01, spec -> code).               *)
-(* GenInit picks a scenario (value + presentation budget) from the families   *)
-(* below; the writer of CanonJSON.tla produces every presentation within   *)
-(* the budget; every finished text is emitted as one JSON record           *)
+(* GenInit picks a scenario (value + presentation budget) from the         *)
+(* families below; the writer of CanonJSON.tla produces every presentation *)
+(* within the budget; every finished text is emitted as one JSON record    *)
 (*   fam   family            text  the presentation (tokens)               *)
 (*   st    valid | invalid | illformed          cor  Corrupt action taken  *)
 (*   exp   canonical text (tokens) of a valid text                         *)
